@@ -13,6 +13,19 @@ var Assumptions = []string{
 	"no unsafe, reflect, cgo or assembly in the module (asserted from imports on every run)",
 }
 
+// NotApplicable lists, for every property id, the reason given in MANIFEST
+// when the property is not (yet) claimed.
+var NotApplicable = [][2]string{
+	{"C01", "designed (DESIGN.md section 4, C01), analyser rules not built yet"},
+	{"C04", "designed (DESIGN.md section 4, C04), analyser rules not built yet"},
+	{"C05", "designed (DESIGN.md section 4, C05), analyser rules not built yet"},
+	{"C09", "designed (DESIGN.md section 4, C09), analyser rules not built yet"},
+	{"C14", "designed (DESIGN.md section 4, C14), analyser rules not built yet"},
+	{"C17", "designed (DESIGN.md section 4, C17), analyser rules not built yet"},
+	{"C18", "designed (DESIGN.md section 4, C18), analyser rules not built yet"},
+	{"C19", "designed (DESIGN.md section 4, C19), analyser rules not built yet"},
+}
+
 var trusted = []string{"go/types", "go/ssa (x/tools v0.29.0)", "mtverif engines", "std/x-net contract table"}
 
 // Properties returns the table of properties and their rules.
@@ -21,7 +34,7 @@ func Properties() []*core.Property {
 }
 
 func prop(id, level, expl string, notCovered []string, rs ...*core.Rule) *core.Property {
-	return &core.Property{ID: id, Level: level, Explanation: expl, NotCovered: notCovered, Rules: rs, Trusted: trusted}
+	return &core.Property{ID: id, Level: level, Explanation: expl, NotCovered: notCovered, Rules: rs, Trusted: trusted, LevelText: expl, Technique: "custom static analysis over go/ssa", DesignRef: "DESIGN.md section 4 " + id}
 }
 
 var props = []*core.Property{
